@@ -18,7 +18,7 @@ func init() {
 			"(P09-complete) serialiseRecord emits the headline (with the should-total iff it is non-zero), every summary line and every entry; the first entry-summary line goes on the entry line iff non-empty, every further line on its own doubly indented line; (P09-arms) each entry kind is printed by the serialiser method of its own kind; " +
 			"(P09-tostring) the text serialiser prints the value's own ToString() (which carries its notation), durations as ToString / ToStringWithSign or minutes under --decimal. " +
 			"Not covered: ToString ∘ FromString of the value types (value-level round trip), idempotence on all inputs.",
-		rules: []ruleFn{ruleP09Tables, ruleP09Complete, ruleP09ToString, ruleP16AmPm},
+		rules: []ruleFn{ruleP09Tables, ruleP09Complete, ruleP09ToString, ruleP09Notation, ruleP16AmPm},
 	})
 }
 
